@@ -129,6 +129,20 @@ fn main() {
             println!("recorded rng events={}", evs.len());
             std::process::exit(0);
         }
+        "fixtures-trace" => {
+            // zkv fixtures-trace <trace.ndjson>
+            let r = Ref::load(&layouts);
+            libapi::install_quiet_panic_hook();
+            let (evs, skipped) = record::fixtures_trace(&r, &repo, 1);
+            let mut out = String::new();
+            for e in &evs {
+                out.push_str(&serde_json::to_string(e).unwrap());
+                out.push('\n');
+            }
+            std::fs::write(&args[2], out).unwrap();
+            println!("{}", serde_json::json!({"events": evs.len(), "skipped": skipped}));
+            std::process::exit(0);
+        }
         "record" => {
             // zkv record <trace.ndjson> --runs N --events N --max-l N
             let r = Ref::load(&layouts);
